@@ -1478,6 +1478,7 @@ func ruleBoundSide(c *Ctx, pkg string) {
 			}
 			own, sibling := false, ""
 			ownStrict, ownUpper := false, false
+			beyond := false
 			for _, cm := range cmpsAt(in.Block()) {
 				for pi, pr := range [][2]ssa.Value{{cm.X, cm.Y}, {cm.Y, cm.X}} {
 					if pr[0] != idx {
@@ -1492,28 +1493,34 @@ func ruleBoundSide(c *Ctx, pkg string) {
 						continue
 					}
 					if sameField(g, f) {
-						own = true
 						op := cm.Op
 						if pi == 1 {
 							op = flipOp(op)
 						}
-						// idx op len(own)
+						// idx op len(own): only a test that holds the index BELOW the length is a bound (on the
+						// path where idx >= len is known to hold, the access is simply out of range)
 						switch op {
 						case token.LSS:
-							ownStrict, ownUpper = true, true
+							own, ownStrict, ownUpper = true, true, true
 						case token.LEQ:
-							ownUpper = true
+							own, ownUpper = true, true
+						case token.GEQ, token.GTR:
+							beyond = true
 						}
 					} else if _, isSlice := g.Type().Underlying().(*types.Slice); isSlice {
 						sibling = g.Name()
 					}
 				}
 			}
-			if !own && sibling == "" {
+			if !own && sibling == "" && !beyond {
 				return // no length test at all on this index: not this rule's business
 			}
 			c.sawFn(name)
 			key := fmt.Sprintf("%s:%s[%s]", name, f.Name(), ksym(idx))
+			if beyond && !own {
+				c.bad("R-BOUND-SIDE", key, in.Pos(), "the access to ."+f.Name()+" is made on the path where its index is known to be ≥ len(."+f.Name()+") (the bounds test and the access are joined by the wrong connective): it panics whenever that path is taken")
+				return
+			}
 			if own && ownUpper && !ownStrict {
 				c.bad("R-BOUND-SIDE", key, in.Pos(), "the index into ."+f.Name()+" is only known to be ≤ len(."+f.Name()+"), not < it: the position one past the end is let through and the access panics")
 				return
